@@ -47,7 +47,65 @@ func (c *Check) connUses(rule string) {
 	p := c.P
 	allowedInvoke := map[string]bool{"Write": true, "Close": true, "RemoteAddr": true, "LocalAddr": true}
 	n := 0
-	for _, fn := range p.FuncSeq {
+	var fn *ssa.Function
+	var uses func(v ssa.Value, depth int)
+	uses = func(v ssa.Value, depth int) {
+		if v.Referrers() == nil {
+			return
+		}
+		for _, r := range *v.Referrers() {
+			n++
+			pos := p.InstrPos(r)
+			switch x := r.(type) {
+			case ssa.CallInstruction:
+				cc := x.Common()
+				d := p.calleeDesc(x)
+				switch {
+				case cc.IsInvoke() && cc.Value == v:
+					c.require(allowedInvoke[cc.Method.Name()], rule, p.Name(fn), "conn."+cc.Method.Name(), pos,
+						"a session connection is only written with Write, closed, or asked for its addresses; reading goes through io.ReadFull in the reader goroutine")
+				case d == "io.ReadFull":
+					c.require(p.Name(fn) == "fsm.read", rule, p.Name(fn), "io.ReadFull(conn)", pos, "only the reader goroutine reads the connection")
+				case p.helperCallee(r) != nil && depth < 4:
+					// a helper of this tree: its parameter is used under the same discipline
+					h := p.helperCallee(r)
+					for k, arg := range cc.Args {
+						if arg == v && k < len(h.Params) {
+							uses(h.Params[k], depth+1)
+						}
+					}
+				default:
+					c.fail(rule, p.Name(fn), "conn passed to "+d, pos, "the connection is handed to "+d+": bytes could be read or written outside the framed Write / io.ReadFull discipline")
+				}
+			case *ssa.Store:
+				fa2, ok := x.Addr.(*ssa.FieldAddr)
+				okS := ok && structFieldName(fa2) == "conn"
+				c.require(okS, rule, p.Name(fn), "conn stored", pos, "the connection is stored only into the writer's conn field")
+			case *ssa.BinOp, *ssa.DebugRef, *ssa.MakeInterface, *ssa.ChangeInterface:
+				if mi, ok := r.(*ssa.MakeInterface); ok {
+					// conversion to io.Reader for io.ReadFull
+					for _, rr := range *mi.Referrers() {
+						if ci, ok := rr.(ssa.CallInstruction); !ok || p.calleeDesc(ci) != "io.ReadFull" {
+							c.fail(rule, p.Name(fn), "conn converted", pos, "connection converted to an interface and used outside io.ReadFull")
+						}
+					}
+				}
+				if ci, ok := r.(*ssa.ChangeInterface); ok {
+					for _, rr := range *ci.Referrers() {
+						cinst, isCall := rr.(ssa.CallInstruction)
+						if !isCall || p.calleeDesc(cinst) != "io.ReadFull" || p.Name(fn) != "fsm.read" {
+							c.fail(rule, p.Name(fn), "conn converted", p.InstrPos(rr), "connection converted to io.Reader and used outside io.ReadFull in the reader goroutine")
+						} else {
+							c.ok(rule, p.Name(fn), "io.ReadFull(conn)", p.InstrPos(rr), "only the reader goroutine reads the connection, with io.ReadFull")
+						}
+					}
+				}
+			default:
+				c.fail(rule, p.Name(fn), fmt.Sprintf("conn used by %T", r), pos, "unexpected use of the session connection")
+			}
+		}
+	}
+	for _, fn = range p.FuncSeq {
 		allInstrs(fn, func(in ssa.Instruction) {
 			ld, ok := in.(*ssa.UnOp)
 			if !ok || ld.Op != token.MUL {
@@ -60,49 +118,7 @@ func (c *Check) connUses(rule string) {
 			if !strings.HasSuffix(ld.Type().String(), "net.Conn") {
 				return
 			}
-			for _, r := range *ld.Referrers() {
-				n++
-				pos := p.InstrPos(r)
-				switch x := r.(type) {
-				case ssa.CallInstruction:
-					cc := x.Common()
-					d := p.calleeDesc(x)
-					switch {
-					case cc.IsInvoke() && cc.Value == ssa.Value(ld):
-						c.require(allowedInvoke[cc.Method.Name()], rule, p.Name(fn), "conn."+cc.Method.Name(), pos,
-							"a session connection is only written with Write, closed, or asked for its addresses; reading goes through io.ReadFull in the reader goroutine")
-					case d == "io.ReadFull":
-						c.require(p.Name(fn) == "fsm.read", rule, p.Name(fn), "io.ReadFull(conn)", pos, "only the reader goroutine reads the connection")
-					default:
-						c.fail(rule, p.Name(fn), "conn passed to "+d, pos, "the connection is handed to "+d+": bytes could be read or written outside the framed Write / io.ReadFull discipline")
-					}
-				case *ssa.Store:
-					fa2, ok := x.Addr.(*ssa.FieldAddr)
-					okS := ok && structFieldName(fa2) == "conn"
-					c.require(okS, rule, p.Name(fn), "conn stored", pos, "the connection is stored only into the writer's conn field")
-				case *ssa.BinOp, *ssa.DebugRef, *ssa.MakeInterface, *ssa.ChangeInterface:
-					if mi, ok := r.(*ssa.MakeInterface); ok {
-						// conversion to io.Reader for io.ReadFull
-						for _, rr := range *mi.Referrers() {
-							if ci, ok := rr.(ssa.CallInstruction); !ok || p.calleeDesc(ci) != "io.ReadFull" {
-								c.fail(rule, p.Name(fn), "conn converted", pos, "connection converted to an interface and used outside io.ReadFull")
-							}
-						}
-					}
-					if ci, ok := r.(*ssa.ChangeInterface); ok {
-						for _, rr := range *ci.Referrers() {
-							cinst, isCall := rr.(ssa.CallInstruction)
-							if !isCall || p.calleeDesc(cinst) != "io.ReadFull" || p.Name(fn) != "fsm.read" {
-								c.fail(rule, p.Name(fn), "conn converted", p.InstrPos(rr), "connection converted to io.Reader and used outside io.ReadFull in the reader goroutine")
-							} else {
-								c.ok(rule, p.Name(fn), "io.ReadFull(conn)", p.InstrPos(rr), "only the reader goroutine reads the connection, with io.ReadFull")
-							}
-						}
-					}
-				default:
-					c.fail(rule, p.Name(fn), fmt.Sprintf("conn used by %T", r), pos, "unexpected use of the session connection")
-				}
-			}
+			uses(ld, 0)
 		})
 	}
 	c.floor(rule, n, 10, "uses of values loaded from conn fields")
@@ -332,14 +348,108 @@ func (c *Check) readerFraming(rule string) {
 			"every value offered on readerMsgCh is the result of messageFromBytes(whole body, header[18]) (the type octet check lives there; a hand-off that bypasses it interprets an unknown type) "+bad)
 	}
 
+	// each single corrupt marker octet is a fault: with octet k different
+	// from 0xFF and the other fifteen equal to it, nothing further is read or
+	// delivered and (1,1) is the only thing offered. The marker loop is
+	// unrolled by the engine, so the index of each load is a constant; when it
+	// is not (another loop form) the structural rule below decides instead.
+	semantic := true
+	for k := int64(0); k < 16 && semantic; k++ {
+		symbolic := false
+		b := NewAnalysis(p, fn)
+		b.Unroll = 16
+		b.EventArgs = readerEvents
+		b.AtomHook = func(e *Expr) (ISet, bool) {
+			if !allFF(e) {
+				return nil, false
+			}
+			iv, isC := e.Args[0].Args[1].IsConst()
+			switch {
+			case !isC:
+				symbolic = true
+				return nil, false
+			case iv == k:
+				return isRange(0, 254), true
+			case iv >= 0 && iv < 16:
+				return isConst(255), true
+			}
+			return nil, false
+		}
+		b.Run()
+		if symbolic || len(b.Undecided) > 0 {
+			semantic = false
+			break
+		}
+		okK, d := mustNot(b, func(cd, sb int64) bool { return !(cd == 1 && sb == 1) })
+		if bodyReadReachable(b) || msgSendReachable(b) {
+			okK, d = false, "body read or message hand-off reachable"
+		}
+		if never, _ := mustNot(b, func(cd, sb int64) bool { return cd == 1 && sb == 1 }); never {
+			okK, d = false, "Connection Not Synchronized is never offered"
+		}
+		c.require(okK, "C08.1 header-validation", "fsm.read", fmt.Sprintf("marker octet %d != 0xFF (the others 0xFF) => (1,1), nothing read further or delivered", k), p.Pos(fn.Pos()), d)
+	}
 	// marker loop covers indices [0,16)
-	okLoop := markerLoopCovers(fn, func(ia *ssa.IndexAddr) bool {
-		// the octet is loaded and compared
+	okLoop := semantic || markerLoopCovers(fn, func(ia *ssa.IndexAddr) bool {
+		// the octet is loaded, compared with 0xFF, and the "differs" outcome
+		// leads to the error hand-off without any further condition (a
+		// comparison that only counts for some indices is not a check of
+		// every octet)
 		for _, r := range *ia.Referrers() {
-			if ld, ok := r.(*ssa.UnOp); ok {
-				for _, rr := range *ld.Referrers() {
-					if bo, ok := rr.(*ssa.BinOp); ok && (bo.Op == token.NEQ || bo.Op == token.EQL) {
-						return true
+			ld, ok := r.(*ssa.UnOp)
+			if !ok {
+				continue
+			}
+			for _, rr := range *ld.Referrers() {
+				bo, ok := rr.(*ssa.BinOp)
+				if !ok || (bo.Op != token.NEQ && bo.Op != token.EQL) {
+					continue
+				}
+				if cst, isC := bo.Y.(*ssa.Const); !isC || cst.Value == nil || cst.Int64() != 255 {
+					continue
+				}
+				for _, u := range *bo.Referrers() {
+					iff, isIf := u.(*ssa.If)
+					if !isIf {
+						continue
+					}
+					blk := iff.Block().Succs[0]
+					if bo.Op == token.EQL {
+						blk = iff.Block().Succs[1]
+					}
+					// straight-line path to the select that offers the error
+					for steps := 0; steps < 6 && blk != nil; steps++ {
+						last := blk.Instrs[len(blk.Instrs)-1]
+						found := false
+						for _, in := range blk.Instrs {
+							if sel, isSel := in.(*ssa.Select); isSel {
+								for _, ss := range sel.States {
+									if ss.Send != nil && chanFieldName(ss.Chan) == "readerErrCh" {
+										found = true
+									}
+								}
+							}
+							if h := curProg.helperCallee(in); h != nil {
+								// the hand-off may live in a helper (offerErr)
+								allInstrs(h, func(x ssa.Instruction) {
+									if sel, isSel := x.(*ssa.Select); isSel {
+										for _, ss := range sel.States {
+											if ss.Send != nil && chanFieldName(ss.Chan) == "readerErrCh" {
+												found = true
+											}
+										}
+									}
+								})
+							}
+						}
+						if found {
+							return true
+						}
+						if _, isJ := last.(*ssa.Jump); isJ {
+							blk = blk.Succs[0]
+							continue
+						}
+						break
 					}
 				}
 			}
